@@ -44,6 +44,9 @@ REF_PROGS = {
     "56k": "\tcpu 56000\n\tsegment code\n\torg $100\n\tnop\n\tsegment xdata\n\torg 0\n\tdc 1\n\tdc 2\n\tsegment ydata\n\torg 10\n\tdc 3\n",
     "multi": "\tcpu 6502\n\torg $200\n\tlda #1\n\tcpu z80\n\tld a,2\n\tcpu 8051\n\tmov a,#3\n\tcpu 68000\n\tpadding off\n\tdc.b 4\n",
     "reloc": "\tcpu 68000\n\trseg\nfoo:\tdc.l foo\n\tdc.w 1\n\texport_sym foo\n\tds.b 4\n\tdc.l foo\n",
+    "reloc-imp3": "\tcpu 8051\n\textern_sym abc\n\tmov a,#1\n\tljmp abc\n\tmov dptr,#abc\n",
+    "reloc-imp14": "\tcpu 8051\n\textern_sym a\n\textern_sym abcd\n\tmov a,#1\n\tljmp a\n\tmov dptr,#abcd\n\tljmp abcd\n",
+    "reloc-imp25": "\tcpu 68000\n\textern_sym ab\n\textern_sym abcde\n\tdc.l ab\n\tdc.w 1\n\tdc.l abcde\n",
     "big": "\tcpu z80\n\torg 0\n\tdb 300 dup (0aah)\n\tdb 300 dup (055h)\n",
 }
 BIG64K = "\tcpu 68000\n\torg 0\n\tpadding off\n" + "\tdc.b [16384]1,2,3,4\n" + "\tdc.b 5\n"
